@@ -370,7 +370,10 @@ func (tb *LTable) Next(key LValue) (LValue, LValue) {
 					}
 				}
 			}
-			if tb.array == nil || index == len(tb.array) {
+			_, hashed := tb.k2i[key]
+			if tb.array == nil || index == len(tb.array) || (index > len(tb.array) && !hashed) {
+				// (a key above the array part that the hash part never held was an array slot that has been
+				// removed since: the array part is exhausted)
 				if (tb.dict == nil || len(tb.dict) == 0) && (tb.strdict == nil || len(tb.strdict) == 0) {
 					return LNil, LNil
 				}
